@@ -10,6 +10,8 @@ from harness.core import Prop, cq, clist
 
 from porepy.geometry import distances as D
 
+from harness.props.c32 import _normal_selection, _isqrt_exact
+
 RTOL = 1e-9
 
 
@@ -62,22 +64,44 @@ def ss_exact(a, b, c, d):
     return best
 
 
+def _inside_simple(q, poly, n):
+    """q in the plane of the simple polygon poly (exact rationals): 2 = strictly inside,
+    1 = on the boundary, 0 = outside.  Drops the coordinate of the largest normal entry and
+    counts crossings of the ray in +x direction."""
+    k = max(range(3), key=lambda i: abs(n[i]))
+    ax = [i for i in range(3) if i != k]
+    P = [(v[ax[0]], v[ax[1]]) for v in poly]
+    x, y = q[ax[0]], q[ax[1]]
+    m = len(P)
+    inside = False
+    for i in range(m):
+        (x1, y1), (x2, y2) = P[i], P[(i + 1) % m]
+        cr = (x2 - x1) * (y - y1) - (y2 - y1) * (x - x1)
+        if cr == 0 and min(x1, x2) <= x <= max(x1, x2) and min(y1, y2) <= y <= max(y1, y2):
+            return 1
+        if (y1 > y) != (y2 > y):
+            xi = x1 + (y - y1) * (x2 - x1) / (y2 - y1)
+            if xi > x:
+                inside = not inside
+    return 2 if inside else 0
+
+
 def _inside_convex(q, poly, n):
-    """q in the plane of the convex polygon poly (exact): inside or on the boundary"""
-    sg = set()
-    k = len(poly)
-    for i in range(k):
-        e = _sub(poly[(i + 1) % k], poly[i])
-        s = _dot(_cross(e, _sub(q, poly[i])), n)
-        if s != 0:
-            sg.add(s > 0)
-    return len(sg) <= 1
+    return _inside_simple(q, poly, n) > 0
+
+
+def _poly_normal(poly):
+    for i in range(1, len(poly) - 1):
+        n = _cross(_sub(poly[i], poly[0]), _sub(poly[i + 1], poly[0]))
+        if any(n):
+            return n
+    raise ValueError("degenerate polygon")
 
 
 def ppoly_exact(p, poly):
     p = _fr(p)
     poly = [_fr(v) for v in poly]
-    n = _cross(_sub(poly[1], poly[0]), _sub(poly[2], poly[0]))
+    n = _poly_normal(poly)
     h = _dot(n, _sub(p, poly[0]))
     q = _lin(p, -h / _dot(n, n), n)
     if _inside_convex(q, poly, n):
@@ -89,7 +113,7 @@ def ppoly_exact(p, poly):
 def spoly_exact(a, b, poly):
     a, b = _fr(a), _fr(b)
     poly = [_fr(v) for v in poly]
-    n = _cross(_sub(poly[1], poly[0]), _sub(poly[2], poly[0]))
+    n = _poly_normal(poly)
     k = len(poly)
     best = min(ppoly_exact(a, poly), ppoly_exact(b, poly))
     for i in range(k):
@@ -101,6 +125,15 @@ def spoly_exact(a, b, poly):
         if _inside_convex(q, poly, n):
             best = F(0)
     return best
+
+
+def ppoly_inside_flag(p, poly):
+    """2/1/0: the orthogonal projection of p is strictly inside / on the boundary / outside"""
+    p = _fr(p)
+    poly = [_fr(v) for v in poly]
+    n = _poly_normal(poly)
+    h = _dot(n, _sub(p, poly[0]))
+    return _inside_simple(_lin(p, -h / _dot(n, n), n), poly, n)
 
 
 def _near(x, y, scale=1.0):
@@ -139,38 +172,60 @@ class C30(Prop):
     design_ref = "DESIGN.md §5 C30"
     level_text = (
         "Coq theorems over the reals about an executable transcription (on squared distances) of "
-        "points_segments and segment_segment_set: the point-segment result is the global minimum "
-        "over the segment, attained at the returned closest point, which lies on the segment "
-        "(every point, every non-degenerate segment); for segment-segment (all branches of the "
-        "vectorised Sunday/Eberly case analysis, including the SMALL_TOLERANCE masks, any positive "
-        "tolerance) the returned parameters lie in [0,1], the returned closest points lie "
-        "on the respective segments and realise the returned distance. The model is tied to the "
-        "code on every run (Coq recomputes distances and closest points in exact rationals on "
-        "integer 2-d/3-d configurations incl. parallel, collinear, intersecting, touching and "
-        "zero-length segments). Optimality of segment-segment, and everything about "
-        "points_polygon / segments_polygon / segment_set, is checked by the exact rational oracle "
-        "only (minimum over the KKT candidates; convex polygons).")
+        "points_segments, segment_segment_set, segment_set, point_in_polygon and points_polygon. "
+        "Point-segment: the result is the global minimum over the segment, attained at the "
+        "returned closest point, which lies on the segment (every point, every segment of positive "
+        "length). Segment-segment (all branches of the vectorised Sunday/Eberly case analysis, the "
+        "three SMALL_TOLERANCE masks included): for any positive tolerance the parameters lie in "
+        "[0,1], the closest points lie on the respective segments and realise the returned "
+        "distance; OFF the tolerance band (explicit guard off_band: discriminant 0 or >= SMALL, "
+        "final numerators 0 or >= SMALL) the returned distance is the global minimum over "
+        "[0,1]^2 (convexity + KKT per stage). segment_set: entries (i,j),(j,i) carry the same "
+        "distance, closest points on segment i resp. j, minimal off the band of the row's call. "
+        "points_polygon for planar polygons: outside branch -- the closest point lies in the "
+        "plane, on an edge, at the returned distance, which is the minimum over the whole "
+        "boundary; inside branch (normal outside numpy's allclose band around +-e_z, or exactly "
+        "+-e_z) -- the closest point is the orthogonal projection, in the plane, at the returned "
+        "distance, the minimum over the whole plane. The model is tied to the code on every run "
+        "(Coq recomputes distances and closest points in exact rationals on integer 2-d/3-d "
+        "configurations: parallel, collinear, crossing, touching, zero-length segments; all "
+        "entries of segment_set; points against convex, very uneven and non-convex polygons in "
+        "planes with rational rotation matrices) and Coq confirms that every segment-segment "
+        "configuration of the run is off the band. segments_polygon and polygons in general "
+        "planes are checked by the exact rational oracle (min over edges + interior projection "
+        "test in fractions; non-convex polygons, plane-piercing segments through notches).")
     level_note = (
-        "P-core. NOT proved: global optimality of the segment-segment result (oracle only); "
-        "polygon kernels and segment_set (oracle only, convex planar polygons with integer "
-        "vertices). Zero-length segments make the code return NaN (0/0); modelled as an error "
-        "value, excluded from the theorems by the guard a<>b and not treated as a violation. "
-        "SMALL_TOLERANCE is absolute in the numerators (1e-8*min squared length, while the "
-        "numerators scale with the fourth power of the lengths): for segments shorter than "
-        "~1e-3 the band is wide; inputs are integer so the band is never approached; the "
-        "soundness theorem holds inside the band too, optimality does not. Floating-point "
-        "rounding is not covered.")
-    technique = ("Coq proof over R (nra on the transcribed case analysis) + vm_compute execution "
-                 "correspondence in exact rationals + exact rational oracle")
-    rule = ("integer coordinates in [-6,6], 2-d and 3-d: point-point, point sets x segment sets "
-            "(both loop variants), one segment against a segment set (parallel, collinear "
-            "overlapping/disjoint, crossing, touching, skew, zero-length), all-pairs segment_set, "
-            "points and segments against convex planar polygons in axis-aligned and tilted "
-            "planes; non-trivial = at least one non-degenerate segment; distinct by (case, output)")
+        "P-core. NOT proved: (1) correctness of the winding-number test point_in_polygon (so "
+        "'cp is inside the polygon' in the inside branch and 'no interior point is closer' in the "
+        "outside branch of points_polygon rest on it; transcribed, tied and covered by the exact "
+        "oracle incl. non-convex polygons); (2) segments_polygon (oracle only); (3) optimality of "
+        "segment-segment INSIDE the SMALL_TOLERANCE band: there the code is not exact by design "
+        "(two unit segments crossing under an angle of 1e-5 get distance 1e-5 instead of 0, see "
+        "Example C30_segseg_band_example); SMALL_TOLERANCE = 1e-8*min squared length is compared "
+        "with numerators that scale with the fourth power of the lengths, so for geometry scaled "
+        "below ~1e-3 the band is wide (everything counts as parallel below ~1e-4). The generator "
+        "uses integer coordinates (never in the band) -- this is a documented tolerance of the "
+        "code, not reported as a violation. Zero-length segments make the code return NaN (0/0): "
+        "modelled as an error value, excluded by the guard of positive length, not treated as a "
+        "violation. Inside numpy's allclose band around +-e_z (polygon tilted by < 1e-8 but not "
+        "exactly horizontal) points_polygon uses the identity as rotation: result off by ~1e-8, "
+        "excluded by plane_guard. Floating-point rounding is not covered.")
+    technique = ("Coq proof over R (convexity/KKT of the quadratic, nra/field on the transcribed case "
+                 "analysis) + vm_compute execution correspondence in exact rationals + exact "
+                 "rational oracle")
+    rule = ("integer coordinates, 2-d and 3-d: point-point, point sets x segment sets (both loop "
+            "variants), one segment against a segment set (parallel, collinear overlapping/"
+            "disjoint, crossing, touching, skew, zero-length), all-pairs segment_set, points and "
+            "segments against simple planar polygons (convex; very uneven edge lengths; "
+            "non-convex U/L/chevron/star/comb) in axis-aligned and tilted planes, points near "
+            "edge midpoints / in notches / off the plane, segments in the plane, above it, "
+            "piercing it at lattice and rational points, with both end points projecting into the "
+            "polygon; non-trivial = at least one non-degenerate segment; distinct by (case, output)")
     trusted = ["squares of the returned distances are compared (the model works on squared distances)",
                "comparison tolerance 1e-9*(1+|x|) inside Coq; integer inputs",
                "numeric record / vector library shared with Model/C32.v; Q and R instances of the same definitions"]
-    assumptions = ["segments of positive length", "convex planar polygons for the polygon oracle"]
+    assumptions = ["segments of positive length", "simple planar polygons (vertices exactly in a plane)",
+                   "segment-segment optimality: off the SMALL_TOLERANCE band (guard off_band)"]
 
     # ------------------------------------------------------------------ generation
     def _pt(self, rng, nd, lo=-6, hi=6):
@@ -213,20 +268,80 @@ class C30(Prop):
             return list(a), _lin(a, 1, self._pt(rng, nd, -3, 3))
         return self._seg(rng, nd)
 
-    def _polygon(self, rng):
-        """convex polygon with integer vertices in a plane of R^3"""
-        m = rng.choice([(0, 0, 1), (0, 1, 0), (1, 0, 0), (1, 2, 2), (2, 3, 6), (1, 1, 0), (1, 1, 1)])
+    CONVEX = [[(0, 0), (3, 0), (0, 3)], [(0, 0), (2, 0), (2, 2), (0, 2)],
+              [(0, 0), (4, 0), (5, 2), (2, 4), (-1, 2)], [(-1, -1), (3, 0), (1, 3)],
+              [(0, 0), (3, 1), (4, 4), (1, 3)]]
+    # very uneven edge lengths (convex)
+    UNEVEN = [[(0, 0), (50, 0), (50, 5), (25, 6), (0, 5)], [(0, 0), (40, 0), (40, 1), (0, 1)],
+              [(0, 0), (30, 1), (1, 2)], [(0, 0), (20, 0), (21, 1), (20, 2), (0, 2), (-1, 1)]]
+    # simple non-convex polygons: U, L, chevron, star, comb
+    NONCONVEX = [[(0, 0), (6, 0), (6, 5), (4, 5), (4, 1), (2, 1), (2, 5), (0, 5)],
+                 [(0, 0), (4, 0), (4, 2), (2, 2), (2, 5), (0, 5)],
+                 [(0, 0), (3, 2), (6, 0), (3, 5)],
+                 [(0, 0), (2, 1), (4, 0), (3, 2), (4, 4), (2, 3), (0, 4), (1, 2)],
+                 [(0, 0), (10, 0), (10, 4), (8, 4), (8, 1), (6, 1), (6, 4), (4, 4), (4, 1),
+                  (2, 1), (2, 4), (0, 4)]]
+    # plane normals; the first block gives rational rotation matrices (used by the tie)
+    PLANES_RAT = [(0, 0, 1), (0, 1, 0), (1, 0, 0), (0, 3, 4), (3, 0, 4), (3, 4, 0), (0, 4, 3),
+                  (4, 0, 3)]
+    PLANES_GEN = [(1, 2, 2), (2, 3, 6), (1, 1, 0), (1, 1, 1), (3, 4, 12)]
+
+    def _polygon(self, rng, rational=False):
+        """simple polygon with integer vertices in a plane of R^3: returns the vertices and a
+        function local(i, j, k) = o + i u + j w + k m (m normal to the plane)"""
+        m = list(rng.choice(self.PLANES_RAT if (rational or rng.random() < 0.6)
+                            else self.PLANES_GEN))
+        m = [x * rng.choice([1, -1]) if x else 0 for x in m]
         u = [m[1], -m[0], 0] if (m[0] or m[1]) else [1, 0, 0]
-        w = _cross(list(m), u)
+        g = math.gcd(*[abs(x) for x in u]) or 1
+        u = [x // g for x in u]
+        w = _cross(m, u)
         g = math.gcd(*[abs(x) for x in w]) or 1
         w = [x // g for x in w]
-        shape = rng.choice([[(0, 0), (3, 0), (0, 3)], [(0, 0), (2, 0), (2, 2), (0, 2)],
-                            [(0, 0), (4, 0), (5, 2), (2, 4), (-1, 2)], [(-1, -1), (3, 0), (1, 3)],
-                            [(0, 0), (3, 1), (4, 4), (1, 3)]])
+        r = rng.random()
+        shape = list(rng.choice(self.CONVEX if r < 0.3 else self.UNEVEN if r < 0.55
+                                else self.NONCONVEX))
         if rng.random() < 0.5:
             shape = shape[::-1]
+        k0 = rng.randrange(len(shape))
+        shape = shape[k0:] + shape[:k0]
         o = self._pt(rng, 3, -3, 3)
-        return [[o[k] + i * u[k] + j * w[k] for k in range(3)] for i, j in shape], u, w, o
+
+        def local(i, j, k=0):
+            return [o[q] + i * u[q] + j * w[q] + k * m[q] for q in range(3)]
+
+        xs = [i for i, _ in shape]
+        ys = [j for _, j in shape]
+        box = (min(xs) - 2, max(xs) + 2, min(ys) - 2, max(ys) + 2)
+        return [local(i, j) for i, j in shape], local, box, shape
+
+    @staticmethod
+    def _ppoly_tie_ok(poly):
+        """the model can be executed exactly: the rotation matrix of the polygon's plane is
+        rational and compute_normal's two argmax selections are unique by a margin"""
+        nrm = _normal_selection(poly)
+        if nrm is None or not any(nrm):
+            return False
+        n2 = _dot(nrm, nrm)
+        return (_isqrt_exact(n2) is not None
+                and _isqrt_exact((nrm[0] ** 2 + nrm[1] ** 2) / n2) is not None)
+
+    def _poly_points(self, rng, local, box, shape, npts):
+        pts = []
+        for _ in range(npts):
+            r = rng.random()
+            k = rng.choice([0, 0, 1, -1, 3, -2])
+            if r < 0.25:        # just outside / on the middle of an edge
+                e = rng.randrange(len(shape))
+                (x1, y1), (x2, y2) = shape[e], shape[(e + 1) % len(shape)]
+                mx, my = (x1 + x2) // 2, (y1 + y2) // 2
+                dx, dy = rng.choice([(0, 0), (0, 1), (0, -1), (1, 0), (-1, 0)])
+                pts.append(local(mx + dx, my + dy, k))
+            elif r < 0.85:
+                pts.append(local(rng.randint(box[0], box[1]), rng.randint(box[2], box[3]), k))
+            else:
+                pts.append(self._pt(rng, 3, -8, 8))
+        return pts
 
     def generate(self, rng, n, tier):
         yield from self._corners()
@@ -263,30 +378,43 @@ class C30(Prop):
                 segs = [self._seg(rng, nd, False) for _ in range(rng.randint(1, 4))]
                 yield {"kind": "sset", "segs": [list(s) for s in segs]}
             elif r < 0.92:
-                poly, u, w, o = self._polygon(rng)
-                pts = []
-                for _ in range(rng.randint(1, 4)):
-                    if rng.random() < 0.4:     # in the plane
-                        i, j = rng.randint(-2, 5), rng.randint(-2, 5)
-                        pts.append([o[k] + i * u[k] + j * w[k] for k in range(3)])
-                    else:
-                        pts.append(self._pt(rng, 3, -8, 8))
-                yield {"kind": "ppoly", "pts": pts, "poly": poly}
+                poly, local, box, shape = self._polygon(rng, rational=rng.random() < 0.6)
+                pts = self._poly_points(rng, local, box, shape, rng.randint(1, 4))
+                yield {"kind": "ppoly", "pts": pts, "poly": poly, "tie": self._ppoly_tie_ok(poly)}
             else:
-                poly, u, w, o = self._polygon(rng)
+                poly, local, box, shape = self._polygon(rng)
                 segs = []
+                rp = lambda: (rng.randint(box[0], box[1]), rng.randint(box[2], box[3]))
                 for _ in range(rng.randint(1, 3)):
-                    if rng.random() < 0.3:     # in the plane
-                        e = []
-                        for _ in range(2):
-                            i, j = rng.randint(-2, 5), rng.randint(-2, 5)
-                            e.append([o[k] + i * u[k] + j * w[k] for k in range(3)])
-                        if e[0] != e[1]:
-                            segs.append(e)
+                    q = rng.random()
+                    if q < 0.2:      # both end points project INTO the polygon, on opposite
+                        #              sides (for non-convex shapes the segment may pass
+                        #              through a notch)
+                        ins = [ij for ij in (rp() for _ in range(60))
+                               if _inside_simple(local(*ij), [_fr(v) for v in poly],
+                                                 _poly_normal(poly)) == 2]
+                        if len(ins) < 2:
                             continue
-                    a, b = self._seg(rng, 3, False)
-                    segs.append([a, b])
-                yield {"kind": "spoly", "segs": segs, "poly": poly}
+                        e = [local(*ins[0], rng.choice([1, 2, 3])),
+                             local(*ins[-1], -rng.choice([1, 2, 3]))]
+                    elif q < 0.3:    # in the plane
+                        e = [local(*rp()), local(*rp())]
+                    elif q < 0.6:    # pierces the plane between two lattice end points
+                        e = [local(*rp(), rng.choice([1, 2, 3])), local(*rp(), -rng.choice([1, 2]))]
+                    elif q < 0.8:    # pierces the plane exactly at a lattice point
+                        t = rp()
+                        dv = (rng.randint(-2, 2), rng.randint(-2, 2), rng.choice([1, 2]))
+                        al, be = rng.choice([1, 2]), rng.choice([1, 2])
+                        e = [local(t[0] + al * dv[0], t[1] + al * dv[1], al * dv[2]),
+                             local(t[0] - be * dv[0], t[1] - be * dv[1], -be * dv[2])]
+                    elif q < 0.9:    # above the plane (parallel or inclined)
+                        e = [local(*rp(), rng.choice([1, 2])), local(*rp(), rng.choice([1, 2, 4]))]
+                    else:
+                        e = list(self._seg(rng, 3, False))
+                    if e[0] != e[1]:
+                        segs.append(e)
+                if segs:
+                    yield {"kind": "spoly", "segs": segs, "poly": poly}
 
     def _corners(self):
         yield {"kind": "ss", "a": [0, 0], "b": [2, 0], "set": [[[0, 1], [2, 1]], [[1, -1], [1, 1]],
@@ -443,6 +571,17 @@ class C30(Prop):
                 ex = spoly_exact(a, b, poly)
                 if not _near(d * d, ex):
                     return f"segment-polygon distance {d!r}, exact squared {ex}"
+                # the returned point lies on one of the two objects, at the returned
+                # distance from the other
+                scale = 1 + max(abs(x) for v in poly + [a, b] for x in v)
+                eps2 = (1e-7 * scale) ** 2
+                dseg = float(ps_exact(cp, a, b)[0])
+                dpol = float(ppoly_exact(cp, poly))
+                on_seg = dseg <= eps2 and abs(math.sqrt(dpol) - d) <= 1e-7 * scale
+                on_pol = dpol <= eps2 and abs(math.sqrt(dseg) - d) <= 1e-7 * scale
+                if not (on_seg or on_pol):
+                    return (f"segment-polygon closest point {cp} is not on the segment/polygon "
+                            "at the returned distance from the other")
             return None
         return None
 
@@ -470,7 +609,30 @@ class C30(Prop):
                     r = ["ok", [r[1][0]] + _pad(r[1][1:1 + nd]) + _pad(r[1][1 + nd:])]
                 outs.append(r)
             st = clist(case["set"], lambda s: f"({_v(s[0])}, {_v(s[1])})")
-            return f"agree_ss {_v(case['a'])} {_v(case['b'])} {st} {clist(outs, _res)}"
+            t = f"agree_ss {_v(case['a'])} {_v(case['b'])} {st} {clist(outs, _res)}"
+            if case["a"] != case["b"] and all(c != d for c, d in case["set"]):
+                # the configuration is off the SMALL_TOLERANCE band: the optimality theorem
+                # applies to it
+                t += f" && off_band_set Q QO {_v(case['a'])} {_v(case['b'])} {st}"
+            return t
+        if k == "sset":
+            if "error" in res:
+                return "false"
+            segs = clist(case["segs"], lambda s: f"({_v(s[0])}, {_v(s[1])})")
+            n = len(case["segs"])
+            terms = []
+            for i in range(n):
+                for j in range(n):
+                    vals = [res["d"][i][j]] + _pad(res["cp"][i][j])
+                    r = ["ok", vals] if _fin(*vals) else ["err", "NanErr"]
+                    terms.append(f"agree_sset_entry {segs} {i}%nat {j}%nat {_res(r)}")
+            return " && ".join(terms)
+        if k == "ppoly" and case.get("tie"):
+            poly = clist(case["poly"], _v)
+            terms = []
+            for pt, d, cp in zip(case["pts"], res["d"], res["cp"]):
+                terms.append(f"agree_ppoly {_v(pt)} {poly} {_res(['ok', [d] + list(cp)])}")
+            return " && ".join(terms)
         return None
 
     def coq_diag(self, case, res):
@@ -481,6 +643,13 @@ class C30(Prop):
         if k == "ps":
             a, b = case["segs"][0]
             return f"point_segment Q QO {_v(case['pts'][0])} {_v(a)} {_v(b)}"
+        if k == "ppoly":
+            poly = clist(case["poly"], _v)
+            return (f"map (fun p => points_polygon Q QO (1 # 100000) (1 # 100000) p {poly}) "
+                    f"{clist(case['pts'], _v)}")
+        if k == "sset":
+            segs = clist(case["segs"], lambda s: f"({_v(s[0])}, {_v(s[1])})")
+            return f"segment_set_upper Q QO {segs}"
         return None
 
     def nontrivial(self, case, res):
